@@ -52,10 +52,19 @@ def gen(rng, tier):
             t = bytearray(base); t[0] = v; near.append(bytes(t))
         for pos in (1, 15, 16, 30):
             t = bytearray(base); t[pos] ^= 1 << rng.randrange(8); near.append(bytes(t))
+    # … and encodings made of very few distinct byte values (0x00 / 0x80 / 0x7f / 0xff patterns): a test on a digest of the bytes (their
+    # OR, AND, XOR or sum) instead of on the bytes must not single them out
+    for pat in ([0x80] + [0] * 31, [0] * 31 + [0x80], [0x80] * 32, [0, 0x80] * 16, [0] * 1 + [0x80] + [0] * 30, [0x7f] * 32, [0xff] * 31 + [0x7f], [0x80] * 31 + [0],
+                [0xff, 0] * 16, [0x01] * 32, [0x80, 0x80] + [0] * 30, [0x55] * 32, [0xaa] * 32):
+        near.append(bytes(pat))
     for u in dict.fromkeys(near):
         sk = rbytes(rng, 32)
         cs.append(Case("scalarmult %s %s" % (hx(sk), hx(u)), cls="scalarmult/near-special-point"))
         cs.append(Case("precalc %s %s" % (hx(u), hx(sk)), cls="precalc/near-special-point"))
+        # the same peer encodings through the key exchange, both roles (classic = object = libsodium is asserted by the runner)
+        pk = refs.x25519_base(sk)
+        cs.append(Case("kx_client %s %s %s" % (hx(pk), hx(sk), hx(u)), cls="kx/near-special-peer"))
+        cs.append(Case("kx_server %s %s %s" % (hx(pk), hx(sk), hx(u)), cls="kx/near-special-peer"))
     for s in scalar_patterns(rng):
         cs.append(Case("scalarmult_base %s" % hx(s), cls="scalarmult_base/pattern"))
         cs.append(Case("scalarmult %s %s" % (hx(s), hx(rbytes(rng, 32))), cls="scalarmult/scalar-pattern"))
